@@ -404,7 +404,37 @@ theorem scaleFactor_spec (cfg : Cfg) :
     nlinarith [mul_le_mul_of_nonneg_left hd this]
   · intro h d; rw [h]; ring
 
+/-- the distance-dependent scale is ONE linear law over every distance (it extrapolates beyond 100 m, it is
+not clamped to the interval on which it is specified): equal steps in the distance change it by equal
+amounts, its value at any distance is the value at 100 m continued with the same slope, and for
+`box_scale_0m ≠ box_scale_100m` two different distances never get the same scale -/
+theorem scaleFactor_linear (cfg : Cfg) :
+    (∀ d e : ℚ, scaleFactor cfg (d + e) - scaleFactor cfg d = (cfg.scale100 - cfg.scale0) / 100 * e) ∧
+    (∀ d : ℚ, scaleFactor cfg d = cfg.scale100 + (cfg.scale100 - cfg.scale0) / 100 * (d - 100)) ∧
+    (cfg.scale0 ≠ cfg.scale100 → ∀ d d' : ℚ, scaleFactor cfg d = scaleFactor cfg d' → d = d') ∧
+    (cfg.scale0 < cfg.scale100 → ∀ d : ℚ, 100 < d → cfg.scale100 < scaleFactor cfg d) ∧
+    (cfg.scale100 < cfg.scale0 → ∀ d : ℚ, 100 < d → scaleFactor cfg d < cfg.scale100) := by
+  unfold scaleFactor
+  refine ⟨fun d e => by ring, fun d => by ring, ?_, ?_, ?_⟩
+  · intro hne d d' h
+    have hs : cfg.scale100 - cfg.scale0 ≠ 0 := fun h0 => hne (by linarith)
+    have h2 : (cfg.scale100 - cfg.scale0) * (d - d') = 0 := by linarith
+    rcases mul_eq_zero.mp h2 with h3 | h3
+    · exact absurd h3 hs
+    · linarith
+  · intro h d hd
+    have : 0 < (cfg.scale100 - cfg.scale0) * (d - 100) := mul_pos (by linarith) (by linarith)
+    linarith
+  · intro h d hd
+    have : 0 < (cfg.scale0 - cfg.scale100) * (d - 100) := mul_pos (by linarith) (by linarith)
+    linarith
+
 /-! ## non-vacuity: concrete instances of the hypotheses -/
+
+/-- the scale beyond 100 m: growing (1 → 1.5 per 100 m gives 2 at 200 m, 6 at 1000 m) and shrinking
+(2 → 1.5 per 100 m gives 1/4 at 350 m), never the value at 100 m -/
+example : scaleFactor ⟨none, 1, 3/2, 1⟩ 200 = 2 ∧ scaleFactor ⟨none, 1, 3/2, 1⟩ 1000 = 6 ∧
+    scaleFactor ⟨none, 2, 3/2, 1⟩ 350 = 1/4 ∧ scaleFactor ⟨none, 2, 3/2, 1⟩ 0 = 2 := by decide +kernel
 
 /-- a counter-clockwise parallelogram with a slanted `a` and a point inside, a point outside -/
 example : wn (paraArea 1 2 2 1 (-1) 3 1 0) ⟨1 + (1/2) * 2 + (1/4) * (-1), 2 + (1/2) * 1 + (1/4) * 3, 0, 0⟩ = 1 := by
